@@ -5,11 +5,12 @@ package bubble
 import (
 	"fmt"
 	"runtime"
-	"time"
 	"runtime/debug"
 	"strings"
+	"sync"
 	"testing"
 	"testing/synctest"
+	"time"
 )
 
 type Result struct {
@@ -48,6 +49,13 @@ func (r Result) String() string {
 // bubble cannot be recovered and kill the process (the driver reports those from the saved
 // last-case file).
 func Run(t *testing.T, root func()) Result {
+	// Go 1.25.0 allocates the synctest "bubble special" of a sync.WaitGroup without holding the heap's
+	// special lock (runtime.getOrSetBubbleSpecial): two first WaitGroup.Add calls running in parallel inside
+	// bubbles corrupt a span's specials list, after which a runtime goroutine spins for ever and even the
+	// freeze watchdog's stack dump (stop-the-world) hangs. rueidis creates a WaitGroup per dial, so every
+	// bubble test is exposed; with one P the two Adds cannot run in parallel. Shards are processes, so
+	// nothing is lost in throughput.
+	onceP.Do(func() { runtime.GOMAXPROCS(1) })
 	done := make(chan Result, 1)
 	go func() { done <- run(t, root) }()
 	tm := time.NewTimer(FreezeLimit)
@@ -59,6 +67,8 @@ func Run(t *testing.T, root func()) Result {
 		return Result{Frozen: true, Msg: "no progress in wall-clock time", Goroutines: bubbleGoroutines()}
 	}
 }
+
+var onceP sync.Once
 
 // FreezeLimit is the wall-clock time after which a bubble is abandoned (its goroutines leak).
 var FreezeLimit = 25 * time.Second
